@@ -181,6 +181,45 @@ def binaryExprR : Nat → List (V E) → HRes E
       | .panic => .panic
       | .fuel => .fuel
 
+/-! ## sequences of helper calls on the same match result
+
+The Go helpers receive the match result by reference (`[]any`); the property speaks about
+"every match result", so a helper must leave it as it found it: a later helper call on the same
+result sees the same tree.  In the model a result tree is a value, so the k-th call of a
+sequence is a function of (helper, tree) only — `seqOuts` is what the correspondence run
+compares with successive real calls on ONE real tree (in several memory layouts). -/
+
+inductive HOp where
+  | list | listop | rangeop | bopnr | bopr
+  deriving DecidableEq, Repr, Inhabited
+
+inductive HOut (α : Type) where
+  | lst (r : HRes (List (V α)))
+  | visited (vs : List (V α)) (panicked : Bool)
+  | val (r : HRes (V α))
+
+/-- One helper call (`wrapf`: callback of `ListOp`, `fn`: callback of `BinaryOp`). -/
+def applyOp (wrapf : V α → V α) (fn : Nat → V α → V α → V α) (fuel : Nat) (op : HOp)
+    (inp : List (V α)) : HOut α :=
+  match op with
+  | .list => .lst (listOf inp)
+  | .listop => .lst (listOp wrapf inp)
+  | .rangeop => let r := rangeOp inp; .visited r.1 r.2
+  | .bopnr => .val (binaryOpNR fn inp)
+  | .bopr => .val (binaryOpR fn fuel inp)
+
+/-- What successive helper calls on the same result tree return. -/
+def seqOuts (wrapf : V α → V α) (fn : Nat → V α → V α → V α) (fuel : Nat) (ops : List HOp)
+    (inp : List (V α)) : List (HOut α) :=
+  ops.map fun op => applyOp wrapf fn fuel op inp
+
+/-- `BinaryExpr(recursive, in)`. -/
+def applyExprOp (fuel : Nat) (recursive : Bool) (inp : List (V E)) : HRes E :=
+  if recursive then binaryExprR fuel inp else binaryExprNR inp
+
+def seqExprOuts (fuel : Nat) (ops : List Bool) (inp : List (V E)) : List (HRes E) :=
+  ops.map fun r => applyExprOp fuel r inp
+
 /-! ## the README calculator
 
 ```
